@@ -1,9 +1,9 @@
 package main
 
 import (
-	"crypto/elliptic"
-	goed "crypto/ed25519"
 	goecdh "crypto/ecdh"
+	goed "crypto/ed25519"
+	"crypto/elliptic"
 	"fmt"
 	"math/big"
 	"strings"
@@ -50,7 +50,7 @@ func (o oracleVals) coq() string {
 // opAux carries valid material (signature / tag / ciphertext) made with an unrestricted copy of the key
 type opAux struct {
 	data, sig, tag, iv, ct, aad []byte
-	remote                     key.Key
+	remote                      key.Key
 }
 
 func cloneKey(k key.Key) key.Key {
@@ -599,7 +599,7 @@ func streamOps(c *ctx) {
 				c.count(fmt.Sprintf("%s op=%d performed=%v", r.coq, op, err == nil))
 				if s > 0 && permits(op) != (err == nil) {
 					c.fail(failure{Op: "key_ops-history", What: "operation outcome does not follow the key_ops in effect at the call",
-						Input: fmt.Sprintf("fam=%s key=%s history=%s", r.coq, describe(map[any]any(k)), strings.Join(human, ",")),
+						Input:    fmt.Sprintf("fam=%s key=%s history=%s", r.coq, describe(map[any]any(k)), strings.Join(human, ",")),
 						Observed: fmt.Sprintf("performed=%v", err == nil), Expected: fmt.Sprintf("performed=%v (list in effect %v)", permits(op), eff), Theorem: "C16_history"})
 				}
 			}
